@@ -28,6 +28,15 @@ def workdir(tag="w"):
     return tempfile.mkdtemp(prefix=f"{tag}_{os.getpid()}_", dir=WORK)
 
 
+CP = "/opt/veriftools/tla/tla2tools.jar:/opt/veriftools/tla/CommunityModules-deps.jar"
+
+
+def java_tlc(heap="2g", gc="Serial", props=()):
+    """The JVM command for TLC with an explicit heap (the `tlc` wrapper takes a quarter of the
+    machine per process, which does not survive 16 parallel shards)."""
+    return ["java", f"-Xmx{heap}", f"-XX:+Use{gc}GC", "-XX:TieredStopAtLevel=4"] + [f"-D{p}" for p in props] + ["-cp", CP, "tlc2.TLC"]
+
+
 def _run(cmd, cwd, env=None, timeout=3600):
     e = dict(os.environ)
     e.update(env or {})
@@ -53,7 +62,7 @@ def model_check(module, cfg_text, workers=NCPU, timeout=3600, extra=(), coverage
         cfg = os.path.join(wd, "model.cfg")
         with open(cfg, "w") as f:
             f.write(cfg_text)
-        cmd = ["tlc", "-workers", str(workers), "-metadir", os.path.join(wd, "meta"), "-noGenerateSpecTE", "-config", cfg]
+        cmd = java_tlc(heap="24g", gc="Parallel") + ["-workers", str(workers), "-metadir", os.path.join(wd, "meta"), "-noGenerateSpecTE", "-config", cfg]
         if coverage:
             cmd += ["-coverage", "1"]
         cmd += list(extra) + [module + ".tla"]
@@ -83,7 +92,7 @@ def _validate_shard(args):
         cfg = os.path.join(wd, "trace.cfg")
         with open(cfg, "w") as f:
             f.write(cfg_text)
-        cmd = ["tlc", "-workers", "1", "-metadir", os.path.join(wd, "meta"), "-noGenerateSpecTE", "-config", cfg, module + ".tla"]
+        cmd = java_tlc(heap="2g") + ["-workers", "1", "-metadir", os.path.join(wd, "meta"), "-noGenerateSpecTE", "-config", cfg, module + ".tla"]
         t0 = time.time()
         rc, out = _run(cmd, cwd=SPEC, env={"TRACE_FILE": tf}, timeout=timeout)
         verdicts = {}
@@ -106,7 +115,7 @@ def validate_traces(module, cfg_text, traces, shards=None, timeout=3600, keep=Fa
     if not traces:
         return [], {"states": 0, "distinct": 0, "wall_s": 0.0, "shards": 0}
     n = len(traces)
-    shards = shards or max(1, min(NCPU, (n + 7) // 8))
+    shards = shards or max(1, min(max(2, NCPU // 2), (n + 19) // 20))
     parts = [[] for _ in range(shards)]
     where = []
     for i, t in enumerate(traces):
